@@ -124,6 +124,12 @@ const commonPreludeTmpl = `(set-logic ALL)
 (declare-fun strcat (Int Int) Int)
 (declare-fun substr (Int Int Int) Int)
 (declare-fun strlt (Int Int) Bool)
+(declare-fun str_contains (Int Int) Bool)
+(declare-fun str_hassuffix (Int Int) Bool)
+(declare-fun str_hasprefix (Int Int) Bool)
+(declare-fun str_lower (Int) Int)
+(declare-fun str_nsplit (Int Int) Int)
+(declare-fun str_part (Int Int Int) Int)
 (assert (= (strlen 0) 0))
 (assert (forall ((s Int)) (! (<= 0 (strlen s)) :pattern ((strlen s)))))
 @BYTERANGE@
@@ -154,6 +160,13 @@ func NewEngine(root string, patterns []string, tags string) (*Engine, error) {
 	e.sigs["strcat"] = FunSig{Params: []string{SInt, SInt}, Ret: SInt}
 	e.sigs["substr"] = FunSig{Params: []string{SInt, SInt, SInt}, Ret: SInt}
 	e.sigs["strlt"] = FunSig{Params: []string{SInt, SInt}, Ret: SBool}
+	// uninterpreted models of package strings (what the functions compute is not modelled, only that they are functions)
+	e.sigs["str_contains"] = FunSig{Params: []string{SInt, SInt}, Ret: SBool}
+	e.sigs["str_hassuffix"] = FunSig{Params: []string{SInt, SInt}, Ret: SBool}
+	e.sigs["str_hasprefix"] = FunSig{Params: []string{SInt, SInt}, Ret: SBool}
+	e.sigs["str_lower"] = FunSig{Params: []string{SInt}, Ret: SInt}
+	e.sigs["str_nsplit"] = FunSig{Params: []string{SInt, SInt}, Ret: SInt}
+	e.sigs["str_part"] = FunSig{Params: []string{SInt, SInt, SInt}, Ret: SInt}
 	for _, sp := range prog.AllPackages() {
 		e.spkgs[sp.Pkg.Path()] = sp
 		e.allPkgs = append(e.allPkgs, sp.Pkg)
